@@ -1347,6 +1347,12 @@ func (d *Data) NewVoxels(geom dvid.Geometry, img interface{}) (*Voxels, error) {
 				requestSize, server.MaxDataRequest)
 		}
 		voxels.data = make([]uint8, requestSize)
+		if d.Background != 0 && bytesPerVoxel == 1 {
+			// voxels of blocks that were never written are not visited by the read: they read as background
+			for i := range voxels.data {
+				voxels.data[i] = d.Background
+			}
+		}
 	} else {
 		switch t := img.(type) {
 		case image.Image:
